@@ -1065,6 +1065,101 @@ C15_THEOREMS = []
 C16_THEOREMS = ['Blf.Props.C16_fifo', 'Blf.Props.C16_backpressure', 'Blf.Props.C16_eos', 'Blf.Props.C16_abort_releases', 'Blf.Props.C16_positions']
 
 
+# ================================================================================================ file level
+def creatable(summary):
+    names = set(summary.get('factory', {}).values())
+    return sorted(n for n in names if n != 'LogContainer' and any(c['name'] == n for c in summary['classes']))
+
+
+def check_C01(res):
+    import filechecks as fc
+    pipe = Pipe(res)
+    tr = pipe.regenerate()
+    if not tr['ok']:
+        return finish_codec(res)
+    summary = tr['summary']
+    regres = pipe.checks()
+    res.checker_cmd = 'cd lean && lake build Blf.Props.C01 && lake env lean <#print axioms>'
+    pipe.lean(['Blf.Props.C01', 'blfdriver'], {'Blf.Props.C01': C01_THEOREMS})
+    exact = sorted(coverage_obligations(pipe, res, summary, regres))
+    fexe, cexe = fc.build_file_harness(pipe, res)
+    if not fexe or not cexe:
+        return finish_codec(res)
+    rng = random.Random(lib.seed() * 2741 + 1)
+    classes = creatable(summary)
+    ncases = 3 * len(classes) if res.tier == 'quick' else 40 * len(classes)
+    cases = fc.gen_cases(summary, rng, res.tier, classes, [c for c in exact if c in classes], ncases)
+    out = fc.run_cases(pipe, res, cases, fexe, cexe)
+    if out is None:
+        return finish_codec(res)
+    files = [o['file'] if o['file'] is not None else b'' for o in out]
+    r, mr = fc.read_files(res, files, fexe)
+    if r is None or mr is None:
+        return finish_codec(res)
+    res.corr['programs'] = len(classes)
+    dis = 0
+    fails = {}
+    stats = {'cases': len(cases), 'objects': sum(len(c.objs) for c in cases), 'levels': sorted(set(c.level for c in cases)),
+             'container_sizes': sorted(set(c.cs for c in cases)), 'files_identical_model_impl': 0, 'reads_identical_model_impl': 0}
+    for c, o, a, ma in zip(cases, out, r, mr):
+        res.corr['requests'] += 2
+        cn0 = c.objs[0][0] if c.objs else '-'
+        single = len(set(x[0] for x in c.objs)) <= 1
+        indet = any(not f['hasInit'] for x in c.objs for f in next(k for k in summary['classes'] if k['name'] == x[0])['fields'])
+        if o['file'] is None:
+            fails.setdefault((cn0, 'write-' + o['wanswer'].split('outcome=')[-1].split()[0]), (c, o['wanswer'][:200]))
+            continue
+        if o.get('mfile') is not None and o['mfile'] != o['file'] and not indet:
+            dis += 1
+            if dis <= 10:
+                k = next((i for i in range(min(len(o['file']), len(o['mfile']))) if o['file'][i] != o['mfile'][i]), -1)
+                res.violation('model-vs-implementation', 'writeFile: model and implementation bytes differ at offset %d (%d vs %d bytes)' % (k, len(o['mfile']), len(o['file'])),
+                              {'request': 'writefile %s %s' % (c.opts(), c.tail())[:3000], 'offset': k})
+        else:
+            stats['files_identical_model_impl'] += 1
+        if not fc.compare_read(summary, ma, a):
+            if not (indet and 'outcome=ended' in a and 'outcome=ended' in ma):
+                dis += 1
+                if dis <= 10:
+                    res.violation('model-vs-implementation', 'readFile: model and implementation answers differ', {'file': o['file'].hex()[:4000], 'model': ma[:1500], 'impl': a[:1500]})
+        else:
+            stats['reads_identical_model_impl'] += 1
+        # property oracle on the implementation
+        d, st, objs = fc.split_read(a)
+        kind = None
+        if d.get('outcome') != 'ended':
+            kind = 'read-' + str(d.get('outcome'))
+        elif d.get('badeof'):
+            kind = 'no-clean-eof'
+        else:
+            exp = o['expected']
+            for i in range(max(len(exp), len(objs))):
+                if i >= len(objs):
+                    kind = 'object-lost'; cn0 = exp[i]['class']; break
+                if i >= len(exp):
+                    kind = 'extra-object'; break
+                if objs[i][0] != exp[i]['class']:
+                    kind = 'class-mismatch'; cn0 = exp[i]['class']; break
+                if fc.mask_indet(summary, objs[i][0], objs[i][1]) != fc.mask_indet(summary, exp[i]['class'], exp[i]['dump']):
+                    kind = 'field-mismatch'; cn0 = exp[i]['class']; break
+        if kind:
+            key = (cn0, kind)
+            if key not in fails or len(c.objs) < len(fails[key][0].objs):
+                fails[key] = (c, a[:300])
+    res.corr['disagreements'] = dis
+    res.oblige('D:file-correspondence', dis == 0, '%d disagreements' % dis)
+    res.corr['distinct'] = len(set((c.opts(), c.tail()) for c in cases))
+    res.corr['rule'] = 'object sequences (single class with 1-3 objects incl. defaults, empty, mixed sequences of exactly-framed classes) populated API-style, x compression levels x container sizes {1,7,64,4096,131072} x trailer on/off x header fields; written and read through the real threaded File; non-trivial = distinct (configuration, sequence)'
+    res.corr['samples'] = [{'config': c.opts(), 'objects': [x[0] for x in c.objs][:5]} for c in cases[:4]]
+    res.corr.update(stats)
+    for (cn, kind), (c, det) in fails.items():
+        res.violation('roundtrip', '%s: %s (%s)' % (cn, kind, det[:160]), {'class': cn, 'failure': kind, 'config': c.opts(), 'objects': c.tail()[:3000]})
+    finish_codec(res)
+
+
+C01_THEOREMS = ['Blf.Props.C01_object_roundtrip']
+
+
 def finish_codec(res):
     def kfilter(v, kf):
         pl = v.get('payload', {})
@@ -1076,7 +1171,7 @@ def finish_codec(res):
     sys.exit(finish(res, kfilter))
 
 
-PROPS = {'C03': check_C03, 'C02': check_C02, 'C17': check_C17, 'C14': check_C14, 'C15': check_C15, 'C16': check_C16}
+PROPS = {'C03': check_C03, 'C02': check_C02, 'C17': check_C17, 'C14': check_C14, 'C15': check_C15, 'C16': check_C16, 'C01': check_C01}
 
 
 def main():
